@@ -254,6 +254,14 @@ func (server *Server) tlsServe() error {
 func (server *Server) receive(conn net.Conn, tlsState *tls.ConnectionState) error {
 	_, isPasswdRequired := server.ConfigRequirePass()
 
+	// A panic while serving one connection must not take the whole server down:
+	// the deferred functions below still close and unregister the connection.
+	defer func() {
+		if r := recover(); r != nil {
+			log.Errorf("%s connection aborted: %v", PackageName, r)
+		}
+	}()
+
 	handlerConn := newConnWith(conn, tlsState)
 	defer func() {
 		handlerConn.Close()
